@@ -177,6 +177,39 @@ def sc_stats(B, C, D, how, trips):
     return o
 
 
+def sc_stats_legacy(B, C, D, flat):
+    """a legacy-layout statistics file (n_inputs, log_liklihood, ...; arrays possibly flattened)
+    loads to the same statistics as its current-format counterpart"""
+    gmm = B.mod("gmm")
+    import numpy as _np
+
+    s, SP = sym_stats(B, C, D, "s", data_like=False)
+    s.t = 7
+    path = B.h5path("legacy-stats.h5")
+    f = B.h5file(path, "w")
+    f["n_gaussians"] = _np.array(C)
+    f["n_inputs"] = _np.array(D)
+    f["log_liklihood"] = s.log_likelihood
+    f["T"] = _np.array(7)
+    f["n"] = B.copy(s.n).reshape(1, C) if flat else B.copy(s.n)
+    f["sumPx"] = B.copy(s.sum_px).reshape(C * D) if flat else B.copy(s.sum_px)
+    f["sumPxx"] = B.copy(s.sum_pxx).reshape(C * D) if flat else B.copy(s.sum_pxx)
+    f.close()
+    leg = gmm.GMMStats.from_hdf5(B.h5file(path, "r"))
+    p2 = B.h5path("current-stats.h5")
+    s.save(p2)
+    new = gmm.GMMStats.from_hdf5(p2)
+    o = Outcome()
+    o.equal("legacy-stats/n", leg.n, new.n)
+    o.equal("legacy-stats/sum_px", leg.sum_px, new.sum_px)
+    o.equal("legacy-stats/sum_pxx", leg.sum_pxx, new.sum_pxx)
+    o.equal("legacy-stats/log_likelihood", leg.log_likelihood, new.log_likelihood)
+    o.claim("legacy-stats/t", int(leg.t) == int(new.t) == 7)
+    o.claim("legacy-stats/shape", tuple(leg.shape) == (C, D) and tuple(_np_shape(leg.sum_px)) == (C, D) and tuple(_np_shape(leg.n)) == (C,))
+    o.claim("legacy-stats/package-equality", bool(leg == new) and bool(new == leg))
+    return o
+
+
 def job_machine(P, C, D, kind, floor):
     for how, trips in (("path", 1), ("file", 1), ("load", 1), ("path", 2)):
         P.run("%s-%d" % (how, trips), sc_machine, dict(C=C, D=D, kind=kind, floor=floor, how=how, trips=trips), validate=1)
@@ -211,6 +244,8 @@ def job_misc(P, C, D):
     for fl in ("scalar", "vector", "matrix"):
         P.run("resave-" + fl, sc_resave, dict(C=C, D=D, floor=fl), validate=1)
     P.run("legacy", sc_legacy, dict(C=C, D=D), validate=1)
+    for flat in (False, True):
+        P.run("legacy-stats-%s" % ("flat" if flat else "shaped"), sc_stats_legacy, dict(C=C, D=D, flat=flat), validate=1)
     for how, trips in (("path", 1), ("file", 1), ("load", 1), ("load-features", 1), ("load-gaussians", 1), ("path", 2)):
         P.run("stats-%s-%d" % (how, trips), sc_stats, dict(C=C, D=D, how=how, trips=trips), validate=1)
 
